@@ -708,7 +708,18 @@ func (w *world) finish(opCoq, resS string, nWrites int, skip bool) stepOut {
 }
 
 // ---------- generation ----------
-var groupPool = []string{"pd", "a", "b", "c"}
+
+// group-id families of one history: mostly unrelated ids; sometimes ids that are
+// proper substrings (prefix, suffix, infix) of one another, as in TiDB_DDL_5 /
+// TiDB_DDL_51 or dc / all-dc-east, so that an id that selects "its" group by
+// anything weaker than equality selects a neighbour as well. "pd" (the group of
+// the default rule) is in every family.
+var groupFamilies = [][]string{
+	{"pd", "a", "b", "c"},
+	{"pd", "dc", "all-dc-east", "dc-1"},
+	{"pd", "TiDB_DDL_5", "TiDB_DDL_51", "DDL"},
+	{"pd", "p", "d", "pd2"},
+}
 var idPool = []string{"default", "r1", "r10", "r2", "r3"}
 var keyPool = []string{"", "10", "20", "2010", "30", "40", "50"}
 
@@ -717,6 +728,14 @@ type gen struct {
 	ver int
 	// what the generator believes is configured (only used to bias choices; never for the verdict)
 	known map[[2]string]ruleJ
+	gp    []string // the group ids of this history (chosen on first use)
+}
+
+func (g *gen) pool() []string {
+	if g.gp == nil {
+		g.gp = groupFamilies[g.r.Pick(55, 15, 15, 15)]
+	}
+	return g.gp
 }
 
 func (g *gen) newVer() int { g.ver++; return g.ver }
@@ -780,7 +799,7 @@ func (g *gen) maybeBreak(ru *ruleJ) {
 	}
 }
 
-func (g *gen) someGroup() string { return groupPool[g.r.Pick(40, 25, 20, 15)] }
+func (g *gen) someGroup() string { return g.pool()[g.r.Pick(40, 25, 20, 15)] }
 
 // group ids for group configurations: sometimes one that path.Join would not keep (rejected since fix 37320b1)
 func (g *gen) groupID() string {
@@ -795,7 +814,7 @@ func (g *gen) knownKey() (string, string) {
 		n := g.r.Intn(len(g.known))
 		// deterministic order over the map
 		var keys [][2]string
-		for _, gg := range groupPool {
+		for _, gg := range g.pool() {
 			for _, ii := range idPool {
 				if _, ok := g.known[[2]string{gg, ii}]; ok {
 					keys = append(keys, [2]string{gg, ii})
@@ -885,10 +904,13 @@ func (g *gen) next(malformed bool) opJ {
 		n := 1 + r.Intn(2)
 		o = opJ{Kind: "allbundles", OverrideAll: r.Pct(40)}
 		for i := 0; i < n; i++ {
-			o.Bundles = append(o.Bundles, g.bundle(groupPool[(r.Intn(4)+i)%4]))
+			o.Bundles = append(o.Bundles, g.bundle(g.pool()[(r.Intn(4)+i)%4]))
 		}
 	case 8:
 		o = opJ{Kind: "delbundle", G: g.someGroup()}
+		if r.Pct(6) {
+			o.G = "" // the empty id names no group: nothing to delete
+		}
 	case 9:
 		o = opJ{Kind: "restart", MaxReplicas: 3}
 		if r.Pct(40) {
@@ -1031,7 +1053,7 @@ func genSweep(r *rng.R) []caseJ {
 		case 3:
 			u = opJ{Kind: "allbundles", OverrideAll: r.Pct(40)}
 			for i := 0; i < 1+r.Intn(2); i++ {
-				u.Bundles = append(u.Bundles, g.bundle(groupPool[(r.Intn(4)+i)%4]))
+				u.Bundles = append(u.Bundles, g.bundle(g.pool()[(r.Intn(4)+i)%4]))
 			}
 		}
 		var res string
